@@ -295,6 +295,16 @@ def scenario_cases(seed, tier):
             "ref": {"jobs": [duB], "pick": ["job", 0]},
             "alts": [{"label": "after a program with the same DiscreteUniform draw inside a branch", "hashseed": 0, "jobs": [duA, duB], "pick": ["job", 1]}]},
             "features": ["scenario:conditional-draw-then-same-draw"], "text": duB["text"]})
+        # (ix) two programs that reuse variable names for different roles around functional assignments
+        f1 = r.choice(["Sin", "Cos"])
+        faA = {"id": "A-fa", "text": f"u = 0\ns = 0\ny = 0\nwhile true:\n    u = Uniform(0, 2)\n    s = {f1}(u)\n    y = y + s\nend\n", "goals": [{"s": 1}, {"y": 1}],
+               "settings": {}, "N": 2, "values": {}, "source_vars": ["u", "s", "y"]}
+        faB = {"id": "B-fa", "text": f"x = 0\nu = 0\ns = 0\ny = 0\nwhile true:\n    x = Normal(0, 1)\n    u = Uniform(0, 1)\n    s = {f1}(x)\n    y = y + s + u\nend\n",
+               "goals": [{"s": 1}, {"s": 2}, {"y": 1}], "settings": {}, "N": 2, "values": {}, "source_vars": ["x", "u", "s", "y"]}
+        out.append({"id": f"scn-funcnames-{cs}", "scenario": {
+            "ref": {"jobs": [faB], "pick": ["job", 0]},
+            "alts": [{"label": "after a program in which s is a function of the draw u", "hashseed": 0, "jobs": [faA, faB], "pick": ["job", 1]}]},
+            "features": ["scenario:functional-variable-names-reused"], "text": faB["text"]})
         out.append({"id": f"scn-funcmode-b-{cs}", "scenario": {
             "ref": {"jobs": [fR], "pick": ["job", 0]},
             "alts": [{"label": "rounded mode after the same program in exact mode", "hashseed": 0, "jobs": [fE, fR], "pick": ["job", 1]}]},
